@@ -66,6 +66,12 @@ void GlobalGraph::edgeMustExist_(const GlobalGraph::Edge& edge, string name) con
 
 GlobalGraph::Edge GlobalGraph::link(Graph::NodeId nodeA, Graph::NodeId nodeB)
 {
+  // the nodes must exist, and the node structure holds at most one relation A->B
+  nodeMustExist_(nodeA, "first node");
+  nodeMustExist_(nodeB, "second node");
+  if (nodeStructure_.find(nodeA)->second.first.count(nodeB) != 0)
+    throw Exception("GlobalGraph::link : nodes already linked " + TextTools::toString(nodeA) + "->" + TextTools::toString(nodeB));
+
   // which ID is available?
   GlobalGraph::Edge edgeID = highestEdgeID_++;
 
@@ -83,6 +89,13 @@ void GlobalGraph::link(Graph::NodeId nodeA, Graph::NodeId nodeB, GlobalGraph::Ed
 {
   if (edgeStructure_.find(edgeID) != edgeStructure_.end())
     throw Exception("GlobalGraph::link : already existing edgeId " + TextTools::toString(edgeID));
+  nodeMustExist_(nodeA, "first node");
+  nodeMustExist_(nodeB, "second node");
+  if (nodeStructure_.find(nodeA)->second.first.count(nodeB) != 0)
+    throw Exception("GlobalGraph::link : nodes already linked " + TextTools::toString(nodeA) + "->" + TextTools::toString(nodeB));
+  // the id must not be handed out again by link(nodeA, nodeB)
+  if (edgeID >= highestEdgeID_)
+    highestEdgeID_ = edgeID + 1;
 
   // writing the new relation to the structure
   linkInNodeStructure_(nodeA, nodeB, edgeID);
